@@ -55,7 +55,23 @@ parse_int = z3.Function("parse_int", StrS, IntS)  # int(str) / int(str, 0) on ca
 str_count_nl = z3.Function("count_nl", StrS, IntS)
 opaque_str = z3.Function("opaque_str", IntS, StrS)
 
-_fresh = itertools.count()
+class _Counter:
+    """Resettable counter behind every generated name: reset at the start of each contract, so that the obligations of a
+    contract are the same formulas (same names) whatever the worker process did before."""
+
+    def __init__(self) -> None:
+        self.n = 0
+
+    def __next__(self) -> int:
+        i = self.n
+        self.n += 1
+        return i
+
+    def reset(self) -> None:
+        self.n = 0
+
+
+_fresh = _Counter()
 _fresh_log: list = []  # (id, const) of every fresh constant, so that comprehensions can skolemise them
 
 
